@@ -153,8 +153,10 @@ class TreeInfo(productmd.common.MetadataBase):
         # serialize before the destination is opened (see MetadataBase.dump)
         parser = self._get_parser()
         self.serialize(parser, main_variant=main_variant)
+        text = six.StringIO()
+        self.build_file(parser, text)
         with productmd.common.open_file_obj(f, "w") as f:
-            self.build_file(parser, f)
+            f.write(text.getvalue())
 
 
 class Header(productmd.common.Header):
